@@ -73,7 +73,8 @@ def tools():
     global TOOLS
     if TOOLS is None:
         TOOLS = _tools()
-        p = subprocess.run([TOOLS["bash"], "-c", 'printf %s "$PATH"'], env={}, stdout=subprocess.PIPE)
+        # stdin must not be a socket: bash then believes it is run by rshd/sshd and sources ~/.bashrc
+        p = subprocess.run([TOOLS["bash"], "-c", 'printf %s "$PATH"'], env={}, stdout=subprocess.PIPE, stdin=subprocess.DEVNULL)
         TOOLS["default_path"] = p.stdout.decode()
     return TOOLS
 
@@ -359,25 +360,42 @@ def run_specs(ctx, cases, tag):
 EXECUTED = []      # (case, result) of the oracle's spec stream; the correspondence compares the same executions with the model
 
 
-def spec_stream(ctx, n, tag, judge, sink):
-    """run n generated specs in chunks through the implementation; judge each with the oracle"""
+def spec_stream(ctx, n, tag, judge, sink, reserve):
+    """run n generated specs in chunks through the implementation until `reserve` seconds of the budget are left;
+    judge each with the oracle"""
     cases = spec_cases(ctx, n, tag)
-    chunk = 250
-    for i in range(0, len(cases), chunk):
-        if ctx.time_left() < 50:
+    chunk = ctx.scale(150, 1000)
+    i = 0
+    import time
+    while i < len(cases):
+        if ctx.time_left() < reserve:
             ctx.skip("%s stream cut after %d of %d cases (time)" % (tag, i, len(cases)))
             break
         part = cases[i:i + chunk]
-        for case, res in zip(part, run_specs(ctx, part, "%s%d" % (tag, i))):
-            res.pop("base_unused", None)
+        t0 = time.time()
+        results = run_specs(ctx, part, "%s%d" % (tag, i))
+        for j, (case, res) in enumerate(zip(part, results)):
+            if "exception" in res or res.get("ret") != 0 or "dump_error" in res:
+                # a failed fork/exec on an overloaded machine is not a verdict: run the case once more, alone
+                res = results[j] = run_spec_case((case, os.path.join(ctx.tmp, "%s%d-retry" % (tag, i))))
+                ctx.count("oracle_spec", "retried")
+        for case, res in zip(part, results):
             ok = judge_spec(ctx, case, res) if judge else True
             ctx.case(case, nontrivial=nontrivial(case),
                      sample={"declared": case["env"], "args": case["args"], "seen": strip_internal(res.get("env", {}))} if i == 0 else None)
             ctx.count("oracle_spec", "ok" if ok else "violation")
-            ctx.count("spec_shape", "vars=%d tools=%d args=%d%s" % (len(case["env"]), len(case["paths"]), len(case["args"]),
-                                                                  " -E" if case["preserve"] else ""))
+            ctx.count("spec_vars", len(case["env"]))
+            ctx.count("spec_tools", len(case["paths"]))
+            ctx.count("spec_args", len(case["args"]))
+            ctx.count("spec_preserve_env", case["preserve"])
             sink.append((case, res))
         shutil.rmtree(os.path.join(ctx.tmp, "%s%d" % (tag, i)), ignore_errors=True)
+        shutil.rmtree(os.path.join(ctx.tmp, "%s%d-retry" % (tag, i)), ignore_errors=True)
+        i += chunk
+        dt = time.time() - t0
+        if dt > 0 and i < len(cases) and ctx.time_left() - reserve < dt * 1.2:
+            ctx.skip("%s stream cut after %d of %d cases (time)" % (tag, i, len(cases)))
+            break
 
 
 def oracle(ctx):
@@ -385,9 +403,17 @@ def oracle(ctx):
     del EXECUTED[:]
     del PROJECTS[:]
     del SANDBOXED[:]
-    spec_stream(ctx, ctx.scale(1500, 80000), "spec", True, EXECUTED)
+    # shares of the time budget: spec stream, then `bob dev` projects, then sandboxed specs; the rest is for the correspondence
+    import time
+    t = time.time()
+    spec_stream(ctx, ctx.scale(1500, 80000), "spec", True, EXECUTED, ctx.budget * 0.6)
+    ctx.notes["t_spec_stream_s"] = round(time.time() - t, 1)
+    t = time.time()
     oracle_projects(ctx)
+    ctx.notes["t_projects_s"] = round(time.time() - t, 1)
+    t = time.time()
     oracle_sandbox(ctx)
+    ctx.notes["t_sandbox_s"] = round(time.time() - t, 1)
 
 
 # ------------------------------------------------------------------ full path: generated projects through `bob dev`
@@ -401,7 +427,8 @@ def sandbox_available():
     if not os.path.exists(helper):
         return False
     try:
-        return subprocess.run([helper, "-C"], stdout=subprocess.DEVNULL, stderr=subprocess.DEVNULL, timeout=30).returncode == 0
+        return subprocess.run([helper, "-C"], stdout=subprocess.DEVNULL, stderr=subprocess.DEVNULL, stdin=subprocess.DEVNULL,
+                              timeout=120).returncode == 0
     except Exception:  # noqa
         return False
 
@@ -492,6 +519,10 @@ def judge_project(ctx, case, res):
             ok = False
         if sandboxed:
             ok = judge_view(ctx, case, res, key, e, st, rec, exec_of) and ok
+    if case.get("weak_probe") and res.get("weak_rc") == 0 and res.get("weak_new_dirs"):
+        ctx.violation("changing only the weak variable DW (%r -> %r) created new variants %r" %
+                      (case["defines"]["DW"], case["weak_second"], res["weak_new_dirs"]), rec, "weak-variable-changes-variant")
+        ok = False
     if case["root"]["fingerprint"]:
         fp = res.get("fp_env")
         if fp is None:
@@ -583,11 +614,20 @@ def own_tag(ws, res):
 
 
 def oracle_projects(ctx):
-    if ctx.time_left() < 70:
+    if ctx.time_left() < ctx.budget * 0.35:
         ctx.skip("`bob dev` project runs (time)")
         return
     cases = project_cases(ctx)
+    limit = max(20, ctx.time_left() - ctx.budget * 0.22)
+    for c in cases:
+        c["timeout"] = limit
     results = run_projects(ctx, cases)
+    for i, (case, res) in enumerate(zip(cases, results)):
+        if res.get("rc") not in (0, None) and ctx.time_left() > ctx.budget * 0.3:
+            # once more, alone: a failed fork or a transient mount error on a busy machine is not a verdict
+            case["timeout"] = max(20, ctx.time_left() - ctx.budget * 0.22)
+            results[i] = run_projects(ctx, [case], "proj-retry%d" % i)[0]
+            ctx.count("oracle_project", "retried")
     for case, res in zip(cases, results):
         ok = judge_project(ctx, case, res)
         ctx.case(dict(case, kind="project"), sample={"project": case["root"], "sandbox": case["sandbox"]} if case["idx"] == 0 else None)
@@ -823,7 +863,7 @@ def oracle_sandbox(ctx):
     if not sandbox_available():
         ctx.skip("sandboxed steps: bob-namespace-sandbox -C fails here (no user namespaces); only the helper argv is compared with the model")
         return
-    if ctx.time_left() < 45:
+    if ctx.time_left() < ctx.budget * 0.2:
         ctx.skip("sandboxed steps (time)")
         return
     cases = sandbox_cases(ctx)
@@ -889,9 +929,11 @@ def compare_step(ctx, case, res, m):
 
 def correspond(ctx):
     tools()
+    import time
+    t_c = time.time()
     pairs = list(EXECUTED)
     if not pairs:
-        spec_stream(ctx, ctx.scale(1500, 80000), "spec", False, pairs)
+        spec_stream(ctx, ctx.scale(1500, 80000), "spec", False, pairs, ctx.budget * 0.2)
     chunk = 2000
     done = 0
     for i in range(0, len(pairs), chunk):
@@ -903,9 +945,15 @@ def correspond(ctx):
             compare_step(ctx, case, res, m)
             done += 1
     ctx.trace_validated(done)
-    correspond_pure(ctx)
+    import time
+    ctx.notes["t_corr_spec_s"] = round(time.time() - t_c, 1)
+    t = time.time()
     correspond_projects(ctx)
     correspond_sandbox(ctx)
+    ctx.notes["t_corr_projects_sandbox_s"] = round(time.time() - t, 1)
+    t = time.time()
+    correspond_pure(ctx)
+    ctx.notes["t_corr_pure_s"] = round(time.time() - t, 1)
 
 
 def _dep(pkg, label, valid, st):
@@ -1093,6 +1141,9 @@ def correspond_pure(ctx):
     ctx.trace_validated(len(reqs))
     # words that are NOT produced by shlex.quote: the model's bash fragment against the real bash
     words = []
+    if ctx.time_left() < 15:
+        ctx.skip("bash word fragment against the real bash (time)")
+        return
     for i in range(ctx.scale(400, 20000)):
         parts = []
         for _ in range(r.randrange(1, 4)):
@@ -1129,7 +1180,8 @@ def _bash_word(arg):
     w, bash, cat = arg
     script = "export V=%s\n%s /proc/self/environ\n" % (w, cat)
     try:
-        p = subprocess.run([bash, "-c", script], env={"PATH": "/p:/q"}, stdout=subprocess.PIPE, stderr=subprocess.DEVNULL, timeout=20)
+        p = subprocess.run([bash, "-c", script], env={"PATH": "/p:/q"}, stdout=subprocess.PIPE, stderr=subprocess.DEVNULL,
+                           stdin=subprocess.DEVNULL, timeout=60)
     except Exception:  # noqa
         return None
     if p.returncode != 0:
@@ -1144,10 +1196,24 @@ def _bash_word(arg):
 
 def replay(ctx, case):
     k = case.get("kind")
+    tools()
     if k == "spec":
         c = case["case"]
         res = run_specs(ctx, [c], "replay")[0]
         judge_spec(ctx, c, res)
+    elif k == "project":
+        c = case["case"]
+        c["timeout"] = 900
+        res = run_projects(ctx, [c], "replay")[0]
+        judge_project(ctx, c, res)
+    elif k == "sandbox":
+        if not sandbox_available():
+            print("replay: the sandbox helper does not work here")
+            return
+        c = case["case"]
+        root = os.path.join(ctx.tmp, "replay")
+        os.makedirs(root, exist_ok=True)
+        judge_sandbox(ctx, c, run_sandbox_case((c, root, ctx.repo)))
 
 
 MANIFEST = {
